@@ -7,6 +7,6 @@ CONSTANTS
   MaxLen = 3
   Waits <- W01
   Groups <- G2
-  SampledGroups = {}
+  SampledGroups = {1}
 INVARIANTS TypeOK BarrierOrder CountersExact Rules EndAfterMemory CompletionOnce BarrierBuffered NoHang
 CHECK_DEADLOCK FALSE
